@@ -38,8 +38,9 @@ m('19-log_worker-exits-on-shutdown', 'src/db.rs', "\t\twhile !db.shutdown.load(O
 m('20-two-guards-in-end_record', 'src/log.rs', "\t\tlet mut total_value = 0;\n\t\tfor (id, overlay) in values.into_iter() {", "\t\tdrop(overlays);\n\t\tlet mut overlays = self.overlays.write();\n\t\tlet mut total_value = 0;\n\t\tfor (id, overlay) in values.into_iter() {", {'C05': ['1e one-guard-over-log-publication']})
 m('22-value-before-key-compare', 'src/table.rs', "\t\t\t\t\t\tif !k.compare(&to_fetch) {", "\t\t\t\t\t\tif !k.compare(&to_fetch) && self.db_version == 0 {", {'C05': ['5b value-only-after-key-match']})
 # ---- C08
-m('26-new-error-after-insert', 'src/db.rs', "\t\t\t\t\toverlay.indexed.insert(*k, (record_id, Some(v.clone())));\n\t\t\t\t},", "\t\t\t\t\toverlay.indexed.insert(*k, (record_id, Some(v.clone())));\n\t\t\t\t\tif v.value().len() > u32::MAX as usize {\n\t\t\t\t\t\treturn Err(Error::InvalidValueData)\n\t\t\t\t\t}\n\t\t\t\t},",
-  {'C08': ['overlay-insert -> Err(InvalidValueData)']})
+m('26-new-error-after-publish', 'src/db.rs', "\t\tfor (c, iterset) in &commit.btree_indexed {\n\t\t\titerset.copy_to_overlay(\n\t\t\t\t&mut overlay[*c as usize].btree_indexed,\n\t\t\t\trecord_id,\n\t\t\t\t&mut bytes,\n\t\t\t\t&self.options,\n\t\t\t);\n\t\t}\n\n\t\tlet commit = Commit { id: record_id, changeset: commit, bytes };\n\n\t\tlog::debug!(\n\t\t\ttarget: "parity-db",\n\t\t\t"Queued commit {}, {} bytes",",
+  "\t\tfor (c, iterset) in &commit.btree_indexed {\n\t\t\titerset.copy_to_overlay(\n\t\t\t\t&mut overlay[*c as usize].btree_indexed,\n\t\t\t\trecord_id,\n\t\t\t\t&mut bytes,\n\t\t\t\t&self.options,\n\t\t\t);\n\t\t}\n\t\tif bytes > MAX_COMMIT_QUEUE_BYTES * 64 {\n\t\t\treturn Err(Error::InvalidInput("Commit too large".into()))\n\t\t}\n\n\t\tlet commit = Commit { id: record_id, changeset: commit, bytes };\n\n\t\tlog::debug!(\n\t\t\ttarget: "parity-db",\n\t\t\t"Queued commit {}, {} bytes",",
+  {'C08': ['copy_to_overlay -> Err(InvalidInput)']})
 # ---- C12
 m('32-no-log-sync', 'src/log.rs', "\t\t\t\t\ttry_io!(file.sync_data());\n", "", {'C12': ['1c sync-before-handover']})
 m('33-handover-from-end_record', 'src/log.rs', "\t\tappending.size += bytes;\n\t\tself.dirty.store(true, Ordering::Relaxed);", "\t\tappending.size += bytes;\n\t\tif bytes == u64::MAX {\n\t\t\tif let Some(a) = self.appending.write().take() {\n\t\t\t\tif let Ok(f) = a.file.into_inner() {\n\t\t\t\t\tself.read_queue.write().push_back((a.id, f));\n\t\t\t\t}\n\t\t\t}\n\t\t}\n\t\tself.dirty.store(true, Ordering::Relaxed);",
